@@ -127,7 +127,7 @@ def run(F, rep):
             conds = [(fmt(strip_tags(c[0])), cond_bool(c[1], c[2])) for c in dominating_conds(f, bi, ex)]
             if any(re.fullmatch(r"Lt\((Vec::)?len\(contig\), k\)", c) and v is True for c, v in conds):
                 short_ok = True
-            if any(("is_empty(segments)" in c) and v is True for c, v in conds):
+            if any(re.search(r"Vec::is_empty\((?!contig\b)\w+\)$", c) and v is True for c, v in conds):
                 empty_ok = True
         rep.ob("C10-S4", "%s: a contig shorter than k, and the no-split case, give one whole-contig segment with both k-mers missing" % name,
                okw and short_ok and empty_ok, detail="whole-contig constructions: %d; short guard %s; empty guard %s" % (len(whole), short_ok, empty_ok),
